@@ -1,6 +1,8 @@
 package c03
 
 import (
+	"strings"
+
 	"verif/mc/ref/syntax"
 )
 
@@ -136,6 +138,53 @@ func ASITexts(allEnvs bool, f func(key, src string)) {
 					}
 					f(f1.name+"/"+sep.name+"/"+f2.name+"/"+e[0], e[1]+syntax.Join(t1, false)+sep.text+syntax.Join(t2, false)+e[2])
 				}
+			}
+		}
+	}
+}
+
+// NoInTexts enumerates the NoIn matrix as raw texts (no parentheses are added):
+// every expression form that contains a nested AssignmentExpression /
+// Expression, with an `in` expression written in each operand position, placed
+// in every clause of a for header (and, as controls, outside one). Where ES5
+// re-enables `in` (parentheses, brackets, arguments, literals, function bodies,
+// the middle operand of ?:) the text is a valid program; elsewhere in the first
+// clause it is not. The reference recogniser decides which.
+func NoInTexts(f func(key, src string)) {
+	forms := []string{
+		"X", "X ? b : c", "a ? X : c", "a ? b : X", "a ? b : c ? d : X", "a ? b : c ? X : d", "a ? b ? c : X : d", "a ? b ? X : c : d", "X ? b : c ? d : e",
+		"a = X", "a += X", "a = b = X", "a [ 0 ] = X", "a . b >>>= X",
+		"X , b", "a , X", "a , b , X",
+		"X && b", "a && X", "X || b", "a || X", "a || b && X", "X + b", "a + X", "X * b", "a * X", "X == b", "a == X", "a === X", "X < b", "a < X", "a >= X",
+		"X in b", "a in X", "a instanceof X", "X instanceof b", "X & b", "a | X", "a ^ X", "a << X",
+		"! X", "typeof X", "- X", "void X", "delete X",
+		"f ( X )", "f ( a , X )", "f ( X , b )", "new F ( X )", "new F ( a , X )", "a [ X ]", "a [ b , X ]", "a . b [ X ] . c", "f ( a ) ( X )",
+		"[ X ]", "[ a , X ]", "[ , X , ]", "{ k : X }", "{ k : a , l : X }", "{ get g ( ) { return X ; } }",
+		"function ( ) { X ; }", "function ( ) { return X ; }", "function ( ) { for ( k in o ) ; }", "function ( ) { for ( X ; ; ) ; }", "function ( v ) { var w = X ; }",
+		"( X )", "( a , X )", "( X , b )", "( ( X ) )",
+		"a ? ( X ) : c", "a ? b : ( X )", "( a ? b : X )", "f ( a ? b : X )", "[ a ? b : X ]", "a [ b ? c : X ]", "a ? b : f ( X )", "a ? b : [ X ]", "a ? b : { k : X }",
+		"a ? b : function ( ) { X ; }", "a = a ? b : X", "a = b ? X : c", "a , b ? c : X", "a ? b : c = X", "a ? b : c , X", "a ? b : c && X", "a ? b : c || d ? e : X",
+		"a ? b : ! X", "a ? b : c + X", "a ? b : c < X", "a && b ? c : X", "a ? b : c ? d : e ? g : X", "a ? f ( b ? c : X ) : d", "a ? b : c in X",
+	}
+	xs := []string{"p in q", "p in q in r", "( p in q )", "p instanceof q", "p", "\"k\" in { k : 1 }"}
+	headers := []struct{ name, text string }{
+		{"init", "for ( E ; ; ) ;"}, {"init3", "for ( E ; t ; u ) x ( ) ;"}, {"var", "for ( var v = E ; ; ) ;"}, {"var2", "for ( var v , w = E ; ; ) ;"},
+		{"var1of2", "for ( var v = E , w ; ; ) ;"}, {"forinvar", "for ( var v = E in o ) ;"}, {"forin", "for ( E in o ) ;"}, {"test", "for ( ; E ; ) ;"},
+		{"update", "for ( ; ; E ) ;"}, {"forinobj", "for ( a in E ) ;"}, {"forinvarobj", "for ( var v in E ) ;"}, {"stmt", "E ;"}, {"body", "for ( ; ; ) E ;"},
+		{"nested", "for ( h = function ( ) { for ( E ; ; ) ; } ; ; ) ;"}, {"paren", "for ( ( E ) ; ; ) ;"}, {"varstmt", "var v = E ;"},
+		{"afterfor", "for ( z ; ; ) ; for ( E ; ; ) ;"}, {"initcomma", "for ( z , E ; ; ) ;"}, {"initassign", "for ( z = E ; ; ) ;"},
+	}
+	for fi, form := range forms {
+		for xi, x := range xs {
+			if xi > 0 && !strings.Contains(form, "X") {
+				continue
+			}
+			e := strings.ReplaceAll(form, "X", x)
+			if strings.HasPrefix(e, "{") || strings.HasPrefix(e, "function") {
+				e = "z = " + e // keep statement-position forms expressions
+			}
+			for _, h := range headers {
+				f("f"+itoa(fi)+"/x"+itoa(xi)+"/"+h.name, strings.ReplaceAll(h.text, "E", e))
 			}
 		}
 	}
